@@ -12,6 +12,9 @@ Notation TGw b := (set_precheck b TG).
 Theorem tmpl_live : TG = set_precheck (t_arr_precheck TG) TG.
 Proof. reflexivity. Qed.
 
+Theorem tmpl_live2 : TG = set_text_guard (t_text_guard TG) (set_precheck (t_arr_precheck TG) TG).
+Proof. reflexivity. Qed.
+
 (* ================================================================ assign_array for a fixed value of the flag *)
 Definition slowGb (b q fixed : bool) (cap : nat) (e : etype) (y : pyval) : res pyval :=
   if int_src_ok (TGw b) e y then
@@ -21,7 +24,9 @@ Definition slowGb (b q fixed : bool) (cap : nat) (e : etype) (y : pyval) : res p
 Definition assignGb (b q fixed : bool) (cap : nat) (e : etype) (x1 : pyval) : res pyval :=
   match x1 with
   | PBytes s => if fast_bytesG e && lenG fixed (length s) cap
-                then chkG q e (map (fun c => PInt (Z.of_N (c mod 256))) s) else slowGb b q fixed cap e x1
+                then chkG q e (map (fun c => PInt (Z.of_N (c mod 256))) s)
+                else if t_text_guard TG then Raise ValueError else slowGb b q fixed cap e x1
+  | PStr _ => if t_text_guard TG then Raise ValueError else slowGb b q fixed cap e x1
   | PArr dt' l => if dtype_eqb dt' (dtype_of PW e) && lenG fixed (length l) cap then chkG q e l else slowGb b q fixed cap e x1
   | _ => slowGb b q fixed cap e x1
   end.
